@@ -81,17 +81,25 @@ def decode_cim_header(wire):
 
 def parse_cimobject(text):
     """'ns/ns' | 'ns/ns:Class' | 'ns/ns:Class.k1=v1,k2="v"' ->
-    (form, [ns components], classname, [key names]).  Key values may be
-    quoted strings with backslash escapes."""
+    (form, [ns components], classname, [key names], [ns components after
+    removing leading/trailing slashes]).  Key values may be quoted strings
+    with backslash escapes.
+
+    The namespace part is a '/'-separated string in both forms; it is split
+    exactly like the NAMESPACE children of LOCALNAMESPACEPATH are read
+    (WireOps!NsNames): the empty namespace is ONE empty component (the body
+    can only say <NAMESPACE NAME=""/>, the DTD wants NAMESPACE+), and
+    'root//x' has an empty component in the middle."""
     i = text.find(":")
     if i < 0:
-        return "ns", text.strip("/").split("/"), "", []
-    ns = text[:i].strip("/")
+        return "ns", text.split("/"), "", [], text.strip("/").split("/")
+    ns = text[:i]
     rest = text[i + 1:]
-    nscomps = ns.split("/") if ns != "" else []
+    nscomps = ns.split("/")
+    nss = ns.strip("/").split("/")
     j = rest.find(".")
     if j < 0:
-        return "path", nscomps, rest, []
+        return "path", nscomps, rest, [], nss
     cls = rest[:j]
     kb = rest[j + 1:]
     keys = []
@@ -100,7 +108,7 @@ def parse_cimobject(text):
     while pos < n:
         eq = kb.find("=", pos)
         if eq < 0:
-            return "unparsable", nscomps, cls, keys
+            return "unparsable", nscomps, cls, keys, nss
         keys.append(kb[pos:eq])
         pos = eq + 1
         if pos < n and kb[pos] == '"':
@@ -113,9 +121,9 @@ def parse_cimobject(text):
                 pos += 1
         if pos < n:
             if kb[pos] != ",":
-                return "unparsable", nscomps, cls, keys
+                return "unparsable", nscomps, cls, keys, nss
             pos += 1
-    return "path", nscomps, cls, keys
+    return "path", nscomps, cls, keys, nss
 
 
 # ---------------------------------------------------------------------------
@@ -183,6 +191,8 @@ _SAFE_RAW = re.compile(r"^[A-Za-z0-9_.\-]{1,40}$")
 _SAFE_NAME = re.compile(r"^[A-Za-z_:][A-Za-z0-9_.:\-]{0,60}$")
 
 NONE_TREE = {"t": "#none", "a": [], "c": [], "x": "none"}
+EMPTY_TOK = "#empty"      # the empty string (WireOpsImplOps!EmptyTok); "" is
+                          # the "no such attribute / no class" sentinel
 
 
 class Projector:
@@ -202,6 +212,8 @@ class Projector:
 
     def tok(self, s):
         s = s.lower()
+        if s == "":
+            return EMPTY_TOK
         if _SAFE_TOK.match(s):
             return s
         if s not in self.tab:
@@ -288,7 +300,8 @@ def hdr_event(headers, proj):
     """headers: mapping as seen at the adapter.  Raises UnicodeEncodeError
     when http.client could not send a value (=> nothing goes out)."""
     h = {"mhas": False, "mok": False, "ohas": False, "ook": False,
-         "method": "", "form": "none", "ns": [], "cls": "", "keys": []}
+         "method": "", "form": "none", "ns": [], "nss": [], "cls": "",
+         "keys": []}
     mv = None
     for k, v in headers.items():
         header_wire_bytes(v)          # every header must be sendable
@@ -300,10 +313,11 @@ def hdr_event(headers, proj):
             ok, text = decode_cim_header(header_wire_bytes(v))
             h["ook"] = ok
             if ok:
-                form, ns, cls, keys = parse_cimobject(text)
+                form, ns, cls, keys, nss = parse_cimobject(text)
                 h["form"] = form
                 h["ns"] = [proj.tok(x) for x in ns]
-                h["cls"] = proj.tok(cls) if cls != "" else ""
+                h["nss"] = [proj.tok(x) for x in nss]
+                h["cls"] = proj.tok(cls) if form != "ns" else ""
                 h["keys"] = sorted(proj.tok(x) for x in keys)
     if mv is not None:
         h["mhas"] = True
